@@ -668,7 +668,8 @@ def zrank_recursion(rep, ex: Explorer, cls: str):
     site2 = fn_label(ex.prog, qual2)
 
     def setup2(I):
-        s = _obj(I, cls, lambda I: {"_z_partition": P_value("cond")})
+        # the recorded mode of the partition is unknown: neither mode has a case of its own
+        s = _obj(I, cls, lambda I: {"_z_partition": P_value("cond"), "_state": I.alloc(HDict(entries={"z_partition_extended": Sym("extended-mode", "bool")}))})
         return [s, ElemV(W, "key")], {}
 
     from ..harness import reccall_summary
@@ -683,9 +684,16 @@ def zrank_recursion(rep, ex: Explorer, cls: str):
             continue
         rcs = [ev for ev, Q in iter_events(p.events) if ev.kind == "reccall"]
         if not rcs:
+            # a rank given without walking the layers: there is no such case (even a partition that is the infinity layer
+            # alone separates the worlds that falsify one of its conditionals from those that do not)
+            why = "; ".join(show_pred(k if v else ("not", k))[:80] for k, v in p.decisions) or "unconditionally"
+            rep.violation("ZRANK.recursion", site2, "rank without the layers", "the rank of a world is what the descent through the layers yields, for every partition",
+                          extracted=f"returns {p.outcome[1]!r} without the recursion when {why}"[:220], required="the recursion's result", function=site2)
             continue
         m += 1
         rc = rcs[0]
+        rv2 = p.outcome[1]
+        rep.check(isinstance(rv2, Sym) and rv2.label[:1] == ("rec0",), "ZRANK.recursion", site2, "rank is the recursion's result", "the rank of a world is what the descent through the layers yields", extracted=repr(rv2)[:80], required="the recursion's result", function=site2)
         idx = [a.lin for a in rc.args if isinstance(a, LinV)]
         rep.check(bool(idx) and idx[0] == LAST, "ZRANK.recursion", f"{site2}:{rc.node.lineno}", "start index", "the rank recursion starts at the highest layer", extracted=F.show_lin(idx[0]) if idx else "?", required="len(P)-1", function=site2)
         ss = [s for s in rc.snap if s[0] == "solver"]
@@ -1503,6 +1511,69 @@ def pickled_state(rep, ex: Explorer):
             rep.check(got == want, "STATE.pickled", site2, f"attribute {name}", "restoring a state puts every entry of it back on the object", extracted=repr(got), required=repr(want), function=site2)
     rep.floor("pickled attributes compared", n, 8)
     return {"pickled_attrs": n}
+
+
+def impacts_factories(rep, ex: Explorer):
+    """IMPACTS.factory on init_with_impacts / init_with_impacts_list: the object rebuilt from exported impacts ranges over
+    the worlds of the signature it records (the one given, else the base's), carries the base's conditionals, takes its
+    impacts from the file / list handed in, and is what the factory returns."""
+    from ..absvals import ClassV
+
+    n = 0
+    for fname, loader, what in (("init_with_impacts", "import_impacts", Sym("IMPACTS-SOURCE")), ("init_with_impacts_list", "load_impacts", Sym("IMPACTS-SOURCE"))):
+        qual = f"{CR}.{fname}"
+        site = fn_label(ex.prog, qual)
+
+        def wd(I, fi, args, kwargs, node):
+            sig = kwargs.get("signature", args[-1] if args else None)
+            I.log("fac.worlds", node, sig=sig)
+            return Sym(("worlds-of", desc(sig)))
+
+        def init(I, fi, args, kwargs, node):
+            ifi = ex.prog.functions.get(f"{PO}.__init__")
+            params = [a.arg for a in ifi.node.args.args]
+            b = {params[i]: v for i, v in enumerate(args) if i < len(params)}
+            b.update(kwargs)
+            I.log("fac.init", node, bound=b)
+            return Const(None)
+
+        summ = {f"{PO}.create_bitvec_world_dict": wd, f"{PO}.__init__": init}
+        for sigarg in (Sym("SIGARG"), Const(None)):
+            held = {}
+
+            def setup(I, sigarg=sigarg, held=held):
+                bb = make_belief_base(I)
+                held["bb"] = bb
+                return [ClassV(CR), bb, what, sigarg, Sym("META")], {}
+
+            paths = ex.run(qual, setup, summaries=summ, key=f"fac-{fname}-{sigarg!r}")
+            for p in paths:
+                if p.outcome[0] != "return":
+                    rep.violation("IMPACTS.factory", site, "outcome", "the factory builds an object for every base and signature", extracted=f"{p.outcome[0]} {p.outcome[1]!r}"[:100], required="return", function=site)
+                    continue
+                given = decided(p, ("isnone", "SIGARG")) is False if isinstance(sigarg, Sym) else False
+                eff = Sym("SIGARG") if given else Sym(("signature", "D"))
+                evs = [ev for ev, Q in iter_events(p.events)]
+                ws = [e for e in evs if e.kind == "fac.worlds"]
+                ins = [e for e in evs if e.kind == "fac.init"]
+                lds = [e for e in evs if e.kind == "call.method" and e.data.get("method") == loader]
+                n += 1
+                okw = len(ws) == 1 and ws[0].sig == eff
+                rep.check(okw, "IMPACTS.factory", site, f"worlds ({'signature given' if given else 'signature of the base'})", "the rebuilt object ranges over the worlds of the signature it records",
+                          extracted=repr(ws[0].sig) if ws else "no world table", required=repr(eff), function=site)
+                if len(ins) != 1:
+                    rep.violation("IMPACTS.factory", site, "initialisation", "the common attributes are initialised once", extracted=f"{len(ins)} calls", required="1", function=site)
+                    continue
+                b = ins[0].bound
+                bbo = p.state.heap.get(held["bb"].oid)
+                oki = b.get("ranks") == Sym(("worlds-of", desc(eff))) and b.get("signature") == eff and b.get("conditionals") == bbo.attrs.get("conditionals") and b.get("metadata") == Sym("META")
+                rep.check(oki, "IMPACTS.factory", site, f"attributes ({'signature given' if given else 'signature of the base'})", "ranks over that signature, the signature itself, the base's conditionals and the metadata reach the object in their own roles",
+                          extracted=", ".join(f"{k}={v!r}"[:50] for k, v in b.items() if k != "self")[:220], required="(worlds of sig, sig, base conditionals, .., metadata)", function=site)
+                okl = len(lds) == 1 and lds[0].args[:1] == (what,) and lds[0].obj == b.get("self") and p.outcome[1] == b.get("self")
+                rep.check(okl, "IMPACTS.factory", site, "impacts loaded and object returned", "the impacts come from the source handed in, are loaded into the object just initialised, and that object is returned",
+                          extracted=f"{len(lds)} load(s) {lds[0].args[:1] if lds else ''}; returns {p.outcome[1]!r}"[:160], required="load(source) on the new object; return it", function=site)
+    rep.floor("impact factory paths", n, 4)
+    return {"impact_factory_paths": n}
 
 
 def _always_raises(body):
